@@ -293,6 +293,7 @@ class Driver:
         self.sigs = {}      # sig id -> dict(dt, base, tbase, wev=[(q,id0,n,gen)], first)
         self.keep = []      # keep ctypes buffers alive for the writer's lifetime
         self.kinds = {}
+        self.snap = {}
 
     def emit(self, ev):
         self.q += 1
@@ -393,8 +394,9 @@ class Driver:
         dt = op.get("dt") or s["dt"] or "f32"
         n, id0 = op["n"], op["id"]
         q = self.nextq()
+        gid = op.get("gid", q)      # identity of the generated data (default: the event number)
         ids = np.arange(id0, id0 + n, dtype=np.int64)
-        vals = gen_values(dt, op.get("gen", ["rnd"]), q, ids, s["base"], self.seed)
+        vals = gen_values(dt, op.get("gen", ["rnd"]), gid, ids, s["base"], self.seed)
         buf = pack(dt, vals)
         cbuf = ct.create_string_buffer(buf, len(buf) + 8)   # +8: see note on shift_buffer read-ahead
         w0 = self.iow0()
@@ -402,7 +404,7 @@ class Driver:
         if self.twr:
             self.keep.append(cbuf)
         if rc == 0 and s["dt"] is not None:
-            s["wev"].append((q, id0, n, op.get("gen", ["rnd"])))
+            s["wev"].append((q, id0, n, op.get("gen", ["rnd"]), gid))
             if s["first"] is None and n > 0:
                 s["first"] = id0
         self.emit({"e": "WrFsr", "sig": op["sig"], "id": id0 - s["base"], "n": n, "gen": op.get("gen", ["rnd"])[0],
@@ -498,7 +500,7 @@ class Driver:
         first = s["first"] if s["first"] is not None else 0
         a0 = start + first
         cuts = {a0, a0 + n}
-        for (q, id0, m, gen) in s["wev"]:
+        for (q, id0, m, gen, gid) in s["wev"]:
             for c in (id0, id0 + m):
                 if a0 < c < a0 + n:
                     cuts.add(c)
@@ -511,9 +513,9 @@ class Driver:
             cands = []
             if fill[a - a0:b - a0].all():
                 cands.append(0)
-            for (q, id0, m, gen) in s["wev"]:
+            for (q, id0, m, gen, gid) in s["wev"]:
                 if id0 <= a and b <= id0 + m:
-                    if np.array_equal(gen_values(dt, gen, q, ids, s["base"], self.seed), piece):
+                    if np.array_equal(gen_values(dt, gen, gid, ids, s["base"], self.seed), piece):
                         cands.append(q)
             runs.append({"p": a - first, "n": b - a, "c": cands})
         return runs
@@ -678,6 +680,36 @@ class Driver:
         for ev in wl.events:
             ev["during"] = self.kinds.get(ev.get("mark"), "none")
             self.emit(ev)
+
+    def _fsr_summaries(self, k):
+        """lift the FSR INDEX/SUMMARY chunks of a file: {(sig, lvl): [entry tokens]}, {sig: level-1 offsets}"""
+        import lifter
+        with open(self.path(k), "rb") as f:
+            img = f.read()
+        fh, chunks, why = lifter.parse_image(img)
+        sums, idx1 = {}, {}
+        for ch in chunks:
+            d = lifter.decode(ch, str_tok, fnv)
+            if d["kind"] == "track" and d["tt"] == 0:
+                if d["ck"] == 4:
+                    sums.setdefault((d["sig"], d["lvl"]), []).extend(d.get("ent", []))
+                elif d["ck"] == 3 and d["lvl"] == 1:
+                    idx1.setdefault(d["sig"], []).extend(d.get("offs", []))
+        return sums, idx1
+
+    def op_sumsnap(self, op):
+        """remember the stored summaries of a file; report which level-1 index entries are 0 (omitted blocks)"""
+        sums, idx1 = self._fsr_summaries(op.get("file", "a"))
+        self.snap = sums
+        for sig in sorted(idx1):
+            offs = idx1[sig]
+            self.emit({"e": "IdxZeros", "sig": sig, "nblk": len(offs), "zeros": [i for i, o in enumerate(offs) if o == 0]})
+
+    def op_sumcmp(self, op):
+        """stored summaries of file b against the snapshot (same stream, omission off)"""
+        sums, idx1 = self._fsr_summaries(op.get("file", "b"))
+        for key in sorted(set(sums) | set(self.snap)):
+            self.emit({"e": "SumCmp", "sig": key[0], "lvl": key[1], "a": self.snap.get(key, []), "b": sums.get(key, [])})
 
     # -- raw material for the lifter / crash images ---------------------------------
     def op_dumplog(self, op):
